@@ -36,7 +36,8 @@ def run(chk, crate="rssl_hlsl", P="C01"):
     f = chk.facts
     rule_op(chk, crate, P)
     rule_shape(chk, crate, P)
-    rule_lit(chk, crate, P)
+    if not rule_lit_eval(chk, crate, P):
+        rule_lit(chk, crate, P)
     if crate == "rssl_hlsl":
         rule_intrinsic(chk, P)
     if not rule_swizzle_eval(chk, crate, P):
@@ -846,6 +847,64 @@ def rule_order(chk, crate, P):
 
 REF_LIT = {"Bool": "Bool", "UInt32": "IntUnsigned32", "Int64": "IntSigned64", "UInt64": "IntUnsigned64", "FloatLiteral": "FloatUntyped",
            "Float16": "Float16", "Float32": "Float32", "Float64": "Float64", "Int32": "IntUntyped", "IntLiteral": "IntUntyped"}
+
+
+def rule_lit_eval(chk, crate, P):
+    """generate_literal read as a table (litmodel): every constant kind x payloads (zero, small, negative, the ends of the
+    range) comes out as a literal of the kind that means the same type, standing for the same number (a negative integer
+    as minus its magnitude), or the whole kind is refused with an error; and a source literal, typed by parse_literal and
+    printed again, is the literal that was written. True when readable; rule_lit (shape) is the fallback."""
+    import litmodel as L
+    f = chk.facts
+    gl = f.fn("generate_literal", crate)
+    pl = f.fn("parse_literal", "rssl_typer")
+    tab = L.generate_table(f, crate)
+    if isinstance(tab, str) or not gl or not pl:
+        chk.note("%s.lit: %s; the shape rule decides" % (P, tab if isinstance(tab, str) else "parse_literal not found"))
+        return False
+    t = crate.replace("rssl_", "")
+    for k, want in REF_LIT.items():
+        rows = tab.get(k)
+        if rows is None:
+            continue
+        bad = None
+        refused = [o for _v, o in rows if o[0] == "refused"]
+        for v, o in rows:
+            if o[0] == "aborts":
+                bad = bad or "Constant::%s(%r) aborts the exporter (%s)" % (k, v, o[1])
+            elif o[0] == "refused":
+                if len(refused) != len(rows):
+                    bad = bad or "Constant::%s(%r) is refused while other %s values are printed" % (k, v, k)
+            elif o[1] != want:
+                bad = bad or "Constant::%s(%r) is printed as Literal::%s, must be %s: the literal changes type" % (k, v, o[1], want)
+            elif L.denotes(o) != v or (isinstance(o[2], int) and not isinstance(o[2], bool) and o[1] != "IntSigned64" and not (0 <= o[2] < 2 ** 64)):
+                bad = bad or "Constant::%s(%r) is printed as %sLiteral::%s(%r), which stands for %r" % (k, v, "-" if o[3] else "", o[1], o[2], L.denotes(o))
+        chk.ob(P + ".lit/%s/%s" % (t, k), bad is None, bad or ("Constant::%s is refused with an error" % k if refused else "Constant::%s -> Literal::%s, same value (%d payloads)" % (k, want, len(rows))),
+               where(gl), sample={"constant": k, "payloads": len(rows)})
+        if any(isinstance(v, int) and not isinstance(v, bool) and v < 0 for v, _o in rows) and want == "IntUntyped":
+            chk.ob(P + ".lit/%s/%s-negative" % (t, k), True, "decided with %s.lit/%s/%s" % (P, t, k), where(gl), trivial=True)
+    n = 0
+    for lk, ps in L.LITERALS.items():
+        bad = None
+        for p_ in ps:
+            c = L.parse(f, pl, lk, p_)
+            if c[0] == "unreadable":
+                chk.note("%s.lit: parse_literal is not readable on Literal::%s (%s); the shape rule decides" % (P, lk, c[1]))
+                return False
+            if c[0] != "const":
+                continue
+            o = L.generate(f, gl, c[1], c[2])
+            if o[0] == "unreadable":
+                chk.note("%s.lit: generate_literal is not readable on Constant::%s(%r); the shape rule decides" % (P, c[1], c[2]))
+                return False
+            n += 1
+            if o[0] == "aborts":
+                bad = bad or "the source literal %s(%r) is typed as Constant::%s(%r), which aborts the exporter (%s)" % (lk, p_, c[1], c[2], o[1])
+            elif o[0] == "lit" and (o[1], o[2], o[3]) != (lk, p_, False):
+                bad = bad or "a source literal %s(%r) is typed as Constant::%s(%r) and printed as %sLiteral::%s(%r): the literal changes" % (lk, p_, c[1], c[2], "-" if o[3] else "", o[1], o[2])
+        chk.ob(P + ".lit/%s/roundtrip-%s" % (t, lk), bad is None, bad or "Literal::%s -> Constant -> Literal::%s, same payload" % (lk, lk), where(gl))
+    chk.floor(P + ".floor/%s/literal-roundtrips" % t, n, 20, "source literals typed and printed again", where(gl))
+    return True
 
 
 def rule_lit(chk, crate, P):
